@@ -433,6 +433,11 @@ func (sp *StakePool) DistributeRewardsRandN(
 	if err != nil {
 		return err
 	}
+	if serviceCharge > value {
+		// float64(value) rounds up above 2^53: never charge more than the reward itself,
+		// value - serviceCharge below would wrap around
+		serviceCharge = value
+	}
 	if serviceCharge > 0 {
 		reward := serviceCharge
 		sr, err := currency.AddCoin(sp.Reward, reward)
@@ -613,6 +618,11 @@ func (sp *StakePool) DistributeRewards(
 	serviceCharge, err := currency.Float64ToCoin(sp.Settings.ServiceChargeRatio * fValue)
 	if err != nil {
 		return err
+	}
+	if serviceCharge > value {
+		// float64(value) rounds up above 2^53: never charge more than the reward itself,
+		// value - serviceCharge below would wrap around
+		serviceCharge = value
 	}
 	if serviceCharge > 0 {
 		reward := serviceCharge
